@@ -244,6 +244,45 @@ def targeted(rng, emit):
             # PandasDataset holds the caller's DataFrame: snapshot it explicitly
     except Exception as e:  # noqa: BLE001
         emit({"v": "inc", "why": f"run_sdmx targeted calls not built: {type(e).__name__}: {str(e)[:80]}"})
+    # value domains / external routines / scalar values whose literals are not already of the declared python type
+    good = structure()
+    df0 = pd.DataFrame(base_cols, dtype=object)
+    vds = [{"name": "VD_n", "type": "Number", "setlist": [1, 2.5, 4]}, {"name": "VD_i", "type": "Integer", "setlist": [1.0, 2.0, 3]},
+           {"name": "VD_big", "type": "Number", "setlist": [9007199254740993, 1]}, {"name": "VD_s", "type": "String", "setlist": ["a", "b"]},
+           {"name": "VD_b", "type": "Boolean", "setlist": [True, False]}]
+    for vd in vds:
+        for fname, kw in (("run", {"script": f"DS_r <- DS_1[filter Id_1 in {vd['name']}];" if vd["type"] in ("Integer", "Number") else "DS_r <- DS_1;", "data_structures": good,
+                                   "datapoints": {"DS_1": df0.copy()}, "value_domains": vd}),
+                          ("semantic_analysis", {"script": "DS_r <- DS_1;", "data_structures": good, "value_domains": [vd]}),
+                          ("validate_value_domain", {"input": vd})):
+            monitored(fname, kw, f"targeted:value-domain:{vd['name']}", emit, {"targeted": [fname, "value-domain", vd["name"]]})
+    routine = {"name": "R1", "query": "SELECT Id_1, Id_2, Me_1 FROM DS_1"}
+    monitored("run", {"script": 'DS_r <- eval(R1(DS_1) language "SQL" returns dataset {identifier<integer> Id_1, identifier<string> Id_2, measure<number> Me_1});',
+                      "data_structures": good, "datapoints": {"DS_1": df0.copy()}, "external_routines": routine}, "targeted:external-routine", emit, {"targeted": ["run", "routine"]})
+    for sv in ({"sc_1": 3}, {"sc_1": 3.0}, {"sc_1": "3"}, {"sc_1": None}):
+        monitored("run", {"script": "DS_r <- DS_1[calc Me_9 := sc_1];", "data_structures": good, "datapoints": {"DS_1": df0.copy()}, "scalar_values": sv},
+                  f"targeted:scalar-values:{type(sv['sc_1']).__name__}", emit, {"targeted": ["run", "scalar_values"]})
+    # pysdmx structures with a partial / empty / full sdmx_mappings dict
+    try:
+        from pysdmx.model import Component, Components, Concept, Role, DataType
+        from pysdmx.model.dataflow import DataStructureDefinition, Schema
+
+        def sdmx(kind, sid):
+            cs = Components([Component(id="DIM_1", required=True, role=Role.DIMENSION, concept=Concept(id="DIM_1"), local_dtype=DataType.STRING),
+                             Component(id="OBS_VALUE", required=False, role=Role.MEASURE, concept=Concept(id="OBS_VALUE"), local_dtype=DataType.DOUBLE)])
+            if kind == "schema":
+                return Schema(context="datastructure", agency="MD", id=sid, version="1.0", components=cs)
+            return DataStructureDefinition(id=sid, agency="MD", version="1.0", components=cs, name=sid)
+        for kind in ("schema", "dsd"):
+            a, b = sdmx(kind, "DSD_A"), sdmx(kind, "DSD_B")
+            urn_a = getattr(a, "short_urn", None) or f"DataStructure=MD:DSD_A(1.0)"
+            for label, mapping in (("partial", {urn_a: "DS_A"}), ("empty", {}), ("unrelated", {"DataStructure=MD:OTHER(1.0)": "DS_X"})):
+                dfa = pd.DataFrame({"DIM_1": ["a", "b"], "OBS_VALUE": [1.0, 2.0]})
+                for fname, kw in (("semantic_analysis", {"script": "DS_r <- DSD_B;", "data_structures": [a, b], "sdmx_mappings": mapping}),
+                                  ("run", {"script": "DS_r <- DSD_B;", "data_structures": [a, b], "datapoints": {"DSD_B": dfa}, "sdmx_mappings": mapping})):
+                    monitored(fname, kw, f"targeted:sdmx-mappings:{kind}:{label}", emit, {"targeted": [fname, "sdmx_mappings", kind, label]})
+    except Exception as e:  # noqa: BLE001
+        emit({"v": "inc", "why": f"sdmx_mappings targeted calls not built: {type(e).__name__}: {str(e)[:80]}"})
 
 
 def run_shard(spec, emit):
